@@ -436,7 +436,7 @@ func correlatedLock(fn *ssa.Function, at ssa.Instruction, want string) (bool, st
 			if len(blk.Instrs) == 0 {
 				continue
 			}
-			iff, ok := blk.Instrs[len(blk.Instrs)-1].(*ssa.If)
+			_, ok := blk.Instrs[len(blk.Instrs)-1].(*ssa.If)
 			if !ok {
 				continue
 			}
@@ -445,25 +445,27 @@ func correlatedLock(fn *ssa.Function, at ssa.Instruction, want string) (bool, st
 				if g, _ := eng.GuardedBy(fn, call, []eng.Edge{e}); !g {
 					continue
 				}
-				// find an equal condition guarding `at`
+				lockFact, ok := eng.FactOn(e)
+				if !ok {
+					continue
+				}
+				// find an edge stating the same fact that guards `at`
 				for _, b2 := range fn.Blocks {
 					if len(b2.Instrs) == 0 {
 						continue
 					}
-					if2, ok := b2.Instrs[len(b2.Instrs)-1].(*ssa.If)
-					if !ok || !sameCond(iff.Cond, if2.Cond) {
+					if _, ok := b2.Instrs[len(b2.Instrs)-1].(*ssa.If); !ok {
 						continue
 					}
-					e2 := eng.Edge{From: b2, Succ: succ}
-					if g, _ := eng.GuardedBy(fn, at, []eng.Edge{e2}); g {
-						// and the lock acquisition dominates the access
-						if g3, _ := eng.PrecededBy(fn, at, func(x ssa.Instruction) bool { return x == ssa.Instruction(call) }); g3 || b2 == blk {
+					for succ2 := 0; succ2 < 2; succ2++ {
+						e2 := eng.Edge{From: b2, Succ: succ2}
+						f2, ok := eng.FactOn(e2)
+						if !ok || !eng.SameFact(lockFact, f2, sameOperandOrCond) {
+							continue
+						}
+						if g, _ := eng.GuardedBy(fn, at, []eng.Edge{e2}); g {
 							found = true
-							desc = "consumersMu taken (unlock deferred) under the same condition that guards this access"
-						} else {
-							// different If blocks with equal condition: the lock's block is on every path where cond holds
-							found = true
-							desc = "consumersMu taken (unlock deferred) under a structurally equal condition over the same operands"
+							desc = "consumersMu taken (unlock deferred) under the same condition, over the same operands, that guards this access"
 						}
 					}
 				}
@@ -490,6 +492,8 @@ func sameCond(a, b ssa.Value) bool {
 	}
 	return false
 }
+
+func sameOperandOrCond(a, b ssa.Value) bool { return sameOperand(a, b) || sameCond(a, b) }
 
 func sameOperand(a, b ssa.Value) bool {
 	if a == b {
